@@ -1,6 +1,6 @@
 (* C06 property theorems. Statements closed by `exact lemma`, followed by Print Assumptions. *)
 From Coq Require Import ZArith NArith List Bool String.
-From OG Require Import C06.Model C06.Proofs C06.ProofsInt.
+From OG Require Import C06.Model C06.Proofs C06.ProofsInt C06.ProofsRender.
 Import ListNotations.
 Open Scope Z_scope.
 
@@ -100,6 +100,54 @@ Example C06_example_malformed :
   parse_line dec2f_exact cfg_repaired (bs "m x=1 12a") = Err /\
   parse_line dec2f_exact cfg_repaired (bs "m x=9223372036854775808i") = Err.
 Proof. vm_compute. repeat split. Qed.
+
+(* parse of render, field level (repaired parser, ANY float conversion d): the canonical rendering of a field - key
+   escaped, value in its documented spelling - parses back to exactly the key and the value it denotes *)
+Theorem C06_parse_render_field : forall d k v,
+  valid_key k -> valid_val d v ->
+  parse_field d cfg_repaired (render_field (k, v)) = Ok (k, store_val d v).
+Proof. exact parse_field_render. Qed.
+Print Assumptions C06_parse_render_field.
+
+(* parse_render, line level. PARTIAL: points without tags; the decimal round trips of integers and of the timestamp
+   are premises (inside valid_field / the last hypothesis); see ProofsRender.v. *)
+Theorem C06_parse_render_partial : forall d name fs ts,
+  valid_name name -> fs <> [] -> Forall (valid_field d) fs ->
+  parse_ts (render_nat ts) = Ok (Some ts) ->
+  parse_line d cfg_repaired (render {| p_name := name; p_tags := []; p_fields := fs; p_ts := ts |}) =
+  Ok {| r_name := name; r_tags := []; r_fields := map (store_field d) fs; r_ts := Some ts |}.
+Proof. exact parse_render_notags_partial. Qed.
+Print Assumptions C06_parse_render_partial.
+
+Theorem C06_parse_render_tag : forall k v,
+  k <> [] -> v <> [] -> (List.length k <= max_key_len)%nat -> (Z.of_nat (List.length v) <= max_tagval_len) ->
+  parse_tag (escape_tag k ++ c_eq :: escape_tag v) = Ok (Some (k, v)).
+Proof. exact parse_tag_render. Qed.
+
+(* floats keep their exact value: under the single hypothesis that the conversion the parser calls is the correctly
+   rounded one, an accepted float literal is stored as the correctly rounded binary64 of its text *)
+Theorem C06_float_stored_correctly_rounded : forall dec2f,
+  (forall s, valid_number s = true -> dec2f s = dec2f_exact s) ->
+  forall lit, valid_number lit = true -> f64_is_finite (dec2f_exact lit) = true ->
+  parse_value dec2f cfg_repaired lit = Ok (VFloat lit (dec2f_exact lit)).
+Proof. exact float_stored_correctly_rounded. Qed.
+Print Assumptions C06_float_stored_correctly_rounded.
+
+(* the hypothesis is satisfiable (by the exact conversion itself), and the decimal premises hold on the boundary values *)
+Example C06_dec2f_hypothesis_satisfiable : forall s, valid_number s = true -> dec2f_exact s = dec2f_exact s.
+Proof. reflexivity. Qed.
+Example C06_decimal_premises :
+  map (fun n => parse_int64 (render_int n))
+      [0; 1; -1; 9007199254740993; -9007199254740993; 9223372036854775807; -9223372036854775808; 1000000000000000000]
+  = map Ok [0; 1; -1; 9007199254740993; -9007199254740993; 9223372036854775807; -9223372036854775808; 1000000000000000000] /\
+  map (fun t => parse_ts (render_nat t)) [0; 1; 1600000000000000000; 9223372036854775807]
+  = map (fun t => Ok (Some t)) [0; 1; 1600000000000000000; 9223372036854775807].
+Proof. split; vm_compute; reflexivity. Qed.
+Example C06_example_render :
+  render {| p_name := bs "m 1"; p_tags := [(bs "t=k", bs "v,w")];
+            p_fields := [(bs "s", PStr (bs "q"" e\")); (bs "i", PInt (-42)); (bs "f", PFloat (bs "2.5e-1"))]; p_ts := 7 |}
+  = bs "m\ 1,t\=k=v\,w s=""q\"" e\\"",i=-42i,f=2.5e-1 7".
+Proof. vm_compute. reflexivity. Qed.
 
 (* non-vacuity: a line using every escape form parses to the point it denotes *)
 Example C06_example_escapes :
